@@ -578,8 +578,10 @@ func c09CycEval(M, entry int, cells []c09Cell) string {
 		val := a.Kind
 		if a.Kind == "num" {
 			x := math.Float64frombits(a.Bits)
-			if x == math.Trunc(x) && math.Abs(x) < 1e15 {
+			if x == math.Trunc(x) && math.Abs(x) <= 9007199254740992 {
 				val = strconv.FormatInt(int64(x), 10)
+			} else if x == math.Trunc(x) {
+				val = "big" // beyond 2^53 doubles and the model's exact integers part company: compared as a class
 			} else {
 				val = fmt.Sprintf("num:%016x", a.Bits)
 			}
